@@ -254,8 +254,43 @@ func (s *Sorts) SetField(t types.Type, idx int, v, nv string) string {
 	return "(upd!" + s.fieldName(si, idx) + " " + v + " " + nv + ")"
 }
 
-// Preamble emits all sort/datatype declarations known so far.
-func (s *Sorts) Preamble() string {
+// finalZero builds a closed value term for the zero value of a sort (cvc5 needs values inside "as const").
+func (s *Sorts) finalZero(so string) string {
+	switch so {
+	case "Bool":
+		return "false"
+	case "Int", "Str":
+		return "0"
+	case "Real":
+		return "0.0"
+	case "Iface":
+		return "(mk-iface 0 0)"
+	}
+	if strings.HasPrefix(so, "Slice_") {
+		es := s.slices[so]
+		return "(mk!" + so + " ((as const (Array Int " + es + ")) " + s.finalZero(es) + ") 0 true)"
+	}
+	if strings.HasPrefix(so, "V_") {
+		si := s.structs[so]
+		idxs := sortedKeys(si.Fields)
+		if len(idxs) == 0 {
+			return "mk!" + so
+		}
+		t := "(mk!" + so
+		for _, i := range idxs {
+			t += " " + s.finalZero(s.SortOf(si.T.Field(i).Type()))
+		}
+		return t + ")"
+	}
+	if strings.HasPrefix(so, "(Array ") {
+		_, rng := splitArraySort(so)
+		return "((as const " + so + ") " + s.finalZero(rng) + ")"
+	}
+	panic("finalZero of sort " + so)
+}
+
+// Preamble emits the sort/datatype declarations needed by the given query text (transitively).
+func (s *Sorts) Preamble(text string) string {
 	var b strings.Builder
 	b.WriteString("(define-sort Str () Int)\n")
 	b.WriteString("(declare-datatypes ((Iface 0)) (((mk-iface (itag Int) (iref Int)))))\n")
@@ -276,7 +311,6 @@ func (s *Sorts) Preamble() string {
 			break
 		}
 	}
-	// dependency order
 	type node struct {
 		name string
 		deps []string
@@ -296,8 +330,8 @@ func (s *Sorts) Preamble() string {
 		name, es := name, es
 		nodes[name] = &node{name: name, deps: depsOfSort(es), decl: func() string {
 			return fmt.Sprintf("(declare-datatypes ((%s 0)) (((mk!%s (sl-arr!%s (Array Int %s)) (sl-len!%s Int) (sl-nil!%s Bool)))))\n"+
-				"(define-fun zero!%s () %s (mk!%s ((as const (Array Int %s)) %s) 0 true))\n",
-				name, name, name, es, name, name, name, name, name, es, s.ZeroOfSort(es))
+				"(define-fun zero!%s () %s %s)\n",
+				name, name, name, es, name, name, name, name, s.finalZero(name))
 		}}
 	}
 	for name, si := range s.structs {
@@ -319,11 +353,7 @@ func (s *Sorts) Preamble() string {
 				fmt.Fprintf(&sb, " (%s %s)", s.fieldName(si, i), s.SortOf(si.T.Field(i).Type()))
 			}
 			sb.WriteString("))))\n")
-			fmt.Fprintf(&sb, "(define-fun zero!%s () %s (mk!%s", name, name, name)
-			for _, i := range idxs {
-				sb.WriteString(" " + s.ZeroOfSort(s.SortOf(si.T.Field(i).Type())))
-			}
-			sb.WriteString("))\n")
+			fmt.Fprintf(&sb, "(define-fun zero!%s () %s %s)\n", name, name, s.finalZero(name))
 			for _, i := range idxs {
 				fmt.Fprintf(&sb, "(define-fun upd!%s ((s %s) (v %s)) %s (mk!%s", s.fieldName(si, i), name,
 					s.SortOf(si.T.Field(i).Type()), name, name)
@@ -339,11 +369,21 @@ func (s *Sorts) Preamble() string {
 			return sb.String()
 		}}
 	}
-	var names []string
-	for n := range nodes {
-		names = append(names, n)
+	// which sorts does the query mention?
+	needed := map[string]bool{}
+	for sym := range usedSymbols(text) {
+		for _, pre := range []string{"mk!", "zero!", "sl-arr!", "sl-len!", "sl-nil!", "upd!"} {
+			sym = strings.TrimPrefix(sym, pre)
+		}
+		if strings.HasPrefix(sym, "V_") {
+			if i := strings.Index(sym, "."); i > 0 {
+				sym = sym[:i]
+			}
+		}
+		if _, ok := nodes[sym]; ok {
+			needed[sym] = true
+		}
 	}
-	sort.Strings(names)
 	state := map[string]int{}
 	var visit func(n string)
 	visit = func(n string) {
@@ -364,6 +404,11 @@ func (s *Sorts) Preamble() string {
 	for _, v := range s.strOrder {
 		fmt.Fprintf(&b, "; str %s = %q\n", s.strLits[v], v)
 	}
+	var names []string
+	for n := range needed {
+		names = append(names, n)
+	}
+	sort.Strings(names)
 	for _, n := range names {
 		visit(n)
 	}
